@@ -265,7 +265,7 @@ class Inliner:
                 return meths[fx.attr]
         return None
 
-    def expand(self, call, helper, bound, generator=None):
+    def expand(self, call, helper, bound, generator=None, tail=False):
         """-> (statements, result expression | None)"""
         self.counter += 1
         tag = f"{helper.name}_{self.counter}"
@@ -328,6 +328,11 @@ class Inliner:
                 r = _Y().visit(st_)
                 out += r if isinstance(r, list) else [r]
             return pre + out, None
+        if tail:
+            # `return helper(..)`: the helper's own returns are the caller's returns; nothing to lower
+            if not body or not isinstance(body[-1], (ast.Return, ast.Raise)):
+                body = body + [ast.Return(value=ast.Constant(value=None), lineno=0, col_offset=0)]
+            return pre + body, None
         ret, done = f"__ret_{tag}", f"__done_{tag}"
         has_value = any(isinstance(n, ast.Return) and n.value is not None for st in body for n in ast.walk(st))
         if not any(_contains_return(st) for st in body):
@@ -389,7 +394,8 @@ class Inliner:
                 key = id(helper)
                 if self.sites.get(key, 0) >= MAX_SITES:
                     continue
-                ex = self.expand(call, helper, bound)
+                is_tail = isinstance(st, ast.Return) and st.value is call
+                ex = self.expand(call, helper, bound, tail=is_tail)
                 if ex is None:
                     continue
                 new_stmts, result = ex
@@ -397,7 +403,7 @@ class Inliner:
                 for n in new_stmts:
                     for x in ast.walk(n):
                         x._inlined_from = helper.name
-                if isinstance(st, ast.Expr) and st.value is call:
+                if is_tail or (isinstance(st, ast.Expr) and st.value is call):
                     stmts[i:i + 1] = new_stmts or [ast.Pass(lineno=st.lineno, col_offset=0)]
                 else:
                     _replace_expr(st, call, result if result is not None else ast.Constant(value=None))
